@@ -210,6 +210,47 @@ func curveStage(r *ev.Run, full bool) {
 					return
 				}
 			}
+			// the same curve built from a mesh (an open path whose vertices are all distinct): NewSegmentCurveMesh has
+			// to find the first segment and chain the others by their end points, whatever order they were added in
+			distinct := true
+			for i := range cur {
+				for j := i + 1; j < len(cur); j++ {
+					if cur[i] == cur[j] {
+						distinct = false
+					}
+				}
+			}
+			if distinct {
+				for _, order := range []int{0, 1, 2} {
+					m := model2d.NewMesh()
+					for q := range segs {
+						i := q
+						switch order {
+						case 1:
+							i = len(segs) - 1 - q
+						case 2:
+							i = (q*2 + 1) % len(segs)
+							if len(segs)%2 == 0 {
+								i = (q + len(segs)/2) % len(segs)
+							}
+						}
+						m.Add(&model2d.Segment{segs[i][0], segs[i][1]})
+					}
+					var mc *model2d.SegmentCurve
+					if p := ev.Try(func() { mc = model2d.NewSegmentCurveMesh(m) }); p != "" {
+						r.Violation("SegmentCurve/mesh-panic", fmt.Sprintf("NewSegmentCurveMesh of an open path with %d segments (insertion order %d): %s", len(segs), order, p), ccase{"NewSegmentCurveMesh", nil, 0})
+						return
+					}
+					for k := 0; k <= 10; k++ {
+						t := float64(k) / 10
+						r.Eval(1)
+						if got, want := mc.Eval(t), sc.Eval(t); !(got.Dist(want) <= 1e-9*total) {
+							r.Violation("SegmentCurve/from-mesh", fmt.Sprintf("open path with %d segments added in order %d: NewSegmentCurveMesh(...).Eval(%g) = %v, NewSegmentCurve of the same segments gives %v", len(segs), order, t, got, want), ccase{"NewSegmentCurveMesh", nil, t})
+							return
+						}
+					}
+				}
+			}
 			r.NontrivialAdd(1)
 		}
 		if len(cur) == 5 {
